@@ -394,7 +394,10 @@ func (h *resRec) fn(ribs map[string]*aft.RIB, op constants.OpType, ni string, a 
 func resolvedInFlight() bool {
 	buf := make([]byte, 4<<20)
 	n := runtime.Stack(buf, true)
-	return strings.Contains(string(buf[:n]), "(*resRec).fn")
+	// a notification goroutine that has not been scheduled yet shows only its wrapper
+	// (rib.(*RIB).callResolvedEntryHook.gowrapN / "created by …callResolvedEntryHook")
+	d := string(buf[:n])
+	return strings.Contains(d, "(*resRec).fn") || strings.Contains(d, "callResolvedEntryHook")
 }
 
 func (h *resRec) drain() []string {
@@ -638,10 +641,10 @@ func RunRibHistory(name string, cfg *RibCfg, steps []Step) (*Trace, error) {
 					}
 				})
 				xl := runOp(s)
-				r.SetPostChangeHook(nil)
 				t.Add("%s", xl)
 				if !once.Load() {
 					// X changed nothing, so there was no gap: Y simply runs next
+					r.SetPostChangeHook(nil)
 					t.Add("%s", runOp(*s.Gap))
 				} else {
 					select {
@@ -650,6 +653,8 @@ func RunRibHistory(name string, cfg *RibCfg, steps []Step) (*Trace, error) {
 					case <-time.After(5 * time.Second):
 						t.Add("hang")
 					}
+					// only now (Y has finished) is it safe to take the hook away again
+					r.SetPostChangeHook(nil)
 				}
 				return
 			}
